@@ -79,6 +79,11 @@ def check_jsolve(R, drv, mod, istim, dt, inp):
             R.disagree("jsolve-driver-error", input=ji); continue
         if not o_r["exact"]:
             R.disagree("flat-solver-model-differs-from-hines-recursion", input=ji)
+        if not o_r["wf"]:        # hypothesis of the solver theorems: the schedule the code generated is a valid elimination order
+            R.disagree("schedule-not-well-formed", input=ji, levels=[np.asarray(c).tolist() for c in (rec["idx"].children_in_level or [])],
+                       parents=[np.asarray(c).tolist() for c in (rec["idx"].parents_in_level or [])])
+        if not o_r["sat"]:
+            R.disagree("flat-solver-model-does-not-solve-its-system", input=ji)
         out = rec["out"]
         scale = 1.0 + float(np.max(np.abs(out)))
         xf, xr = np.asarray(o_f["x"]), np.asarray(o_r["x"])
